@@ -121,8 +121,9 @@ func NewFileSequencePad(sequence string, style PadStyle) (*FileSequence, error) 
 
 					// Calculate the padding chars
 					pad = padder.PaddingChars(len(strings.TrimSpace(frameStr)))
+
+					ext = parts[3]
 				}
-				ext = parts[3]
 			}
 		}
 
